@@ -221,14 +221,11 @@ def run(c, a):
             want = [["Silent", "Good", "Cancel"], ["Good", "PeerClose", "Silent", "Good", "Cancel"]]
             got = [x for x in got if [y["a"] for y in x] in want]
         else:
-            # not the behaviours where Cancel directly follows a Silent connect: there the cancellation races with
-            # receivingConnProvider.NewConnection's Accept, and when Accept wins the accepted conn is dropped unclosed
-            # (`if r.lifetime.Err() != nil { return nil, ... }` right after Accept) - a timing-dependent leak on the tree
-            # as it is (seen once: replay kind muxpool-trace, cause accepted-conn-dropped-at-cancel), reported to the
-            # lead; until it is repaired or listed, a schedule that hits it only now and then has no place in the check
+            # behaviours where Cancel directly follows a Silent connect first: there the cancellation races with
+            # receivingConnProvider.NewConnection's Accept (finding C10-accepted-conn-dropped-at-cancel, fixed)
             def silent_then_cancel(x):
                 return any(x[i]["a"] == "Silent" and x[i + 1]["a"] == "Cancel" for i in range(len(x) - 1))
-            got = [x for x in got if not silent_then_cancel(x)][:6]
+            got = ([x for x in got if silent_then_cancel(x)] * 3)[:9] + [x for x in got if not silent_then_cancel(x)][:6]
         scheds += [{"n": 1, "cmds": x, "rcv": True} for x in got]
         c.coverage["receiver_probe_schedules"] = len(got)
         scheds = scheds + loops
